@@ -85,6 +85,7 @@ def build_corpus(tier, rng):
                 tw.attr_delims = [[1], [2], [0, 2, 1]][j % 3]
             items.append(("attr-forms", tw))
     G.resolve_names(ID, [it for _, it in items])
+    items = [(f_, i_) for f_, i_ in items if not getattr(i_, "_lost_variants", False)]     # (only when the generator probe is unavailable)
     for fam, it in items:
         fieldless = all(v.kind == "unit" for v in it.variants)
         derives = ["EnumCount", "VariantNames", "EnumIter"] + (["VariantArray"] if fieldless else [])
